@@ -8,6 +8,8 @@ TMP = os.path.join(vf.BUILD, "tmp")
 CLI_TARGET = os.path.join(vf.BUILD, "cli-target")
 LANG_ARGS = {"rust": ["--generate-all"], "c": [], "markdown": [], "moonbit": [], "cpp": [], "go": [], "d": [],
              "csharp": ["--runtime", "mono"]}
+TIMEOUT = 90
+MAX_BYTES = 3 << 20      # worlds whose bindings are larger are skipped (counted): the byte-list model would dominate the run time
 ENV = {"RUST_BACKTRACE": "0", "RUST_LIB_BACKTRACE": "0", "RUST_LOG": "off"}
 
 
@@ -33,7 +35,10 @@ def build_cli(workdir):
 
 def run_cli(exe, args, cwd):
     e = dict(os.environ); e.update(ENV)
-    p = subprocess.run([exe] + args, cwd=cwd, env=e, stdout=subprocess.PIPE, stderr=subprocess.PIPE, timeout=120)
+    try:
+        p = subprocess.run([exe] + args, cwd=cwd, env=e, stdout=subprocess.PIPE, stderr=subprocess.PIPE, timeout=TIMEOUT)
+    except subprocess.TimeoutExpired:
+        return 124, "TIMEOUT after %ds" % TIMEOUT
     return p.returncode, p.stderr.decode("utf-8", "replace")
 
 
@@ -49,6 +54,8 @@ def generate(exe, lang, wit_text, d):
     if rc != 0:
         return False, [], {}, err
     names = [n[len("out/"):] for n in re.findall(r'^Generating "(.*)"$', err, flags=re.M)]
+    if sum(os.path.getsize(os.path.join(out, n)) for n in names) > MAX_BYTES:
+        return False, [], {}, "TOOBIG: generated output exceeds %d bytes" % MAX_BYTES
     files = {}
     for n in names:
         with open(os.path.join(out, n), "rb") as f:
